@@ -56,9 +56,13 @@ var registry = []Harness{
 		Quick: [][]int{{2, 0}, {1, 1}, {1, 2}}, Thorough: [][]int{{3, 0}, {2, 1}, {2, 2}},
 		Bound: "fixture param1 (0: empty; 1/2: n0 held by both lists in different states), then k (param0) consecutive operations, each with symbolic method (addPeer/addPeerIR/addNode/updateState/updateStateIR/deleteNode), symbolic target in the pool {n0,n1}, symbolic state in Z, symbolic Alphabet and node signatures; reference model tracks n0"},
 	{Prop: "C17", Unwind: 64, Pkg: "neofs", Func: "VerifC17Ballots", Link: []string{"neofs", "processing"},
-		Quick:    [][]int{{0, 1, 3}, {0, 3, 4}, {0, 4, 4}, {1, 4, 4}, {2, 4, 3}, {3, 4, 3}},
-		Thorough: [][]int{{0, 1, 4}, {0, 2, 4}, {0, 3, 5}, {0, 4, 5}, {0, 5, 5}, {0, 6, 5}, {0, 7, 5}, {1, 3, 4}, {1, 4, 5}, {1, 7, 5}, {2, 3, 4}, {2, 4, 4}, {2, 7, 5}, {3, 3, 4}, {3, 4, 4}, {3, 7, 5}},
-		Bound:    "NeoFS contract without Notary, n stored Alphabet keys (param 1), k invocations (param 2) of one method (param 0: setConfig/cheque/alphabetUpdate/innerRingCandidateRemove), each by a symbolic caller (member 0..n-1 or a stranger) for one of two decision ids after a symbolic gap of 0..25 blocks; reference model: live-ballot reading (DESIGN.md C17)"},
+		Quick:    [][]int{{0, 1, 3}, {0, 3, 4}, {0, 4, 4}, {1, 4, 4}, {2, 4, 3}, {3, 4, 3}, {0, 2, 4}, {1, 2, 4}, {2, 2, 4}, {3, 2, 4}},
+		Thorough: [][]int{{0, 1, 4}, {0, 2, 4}, {0, 3, 5}, {0, 4, 5}, {0, 5, 5}, {0, 6, 5}, {0, 7, 5}, {1, 2, 4}, {1, 3, 4}, {1, 4, 5}, {1, 7, 5}, {2, 2, 4}, {2, 3, 4}, {2, 4, 4}, {2, 7, 5}, {3, 2, 4}, {3, 3, 4}, {3, 4, 4}, {3, 7, 5}},
+		Bound:    "NeoFS contract without Notary, n stored Alphabet keys (param 1), k invocations (param 2) of one method (param 0: setConfig/cheque/alphabetUpdate/innerRingCandidateRemove), each by a symbolic caller (member 0..n-1 or a stranger) for one of two decision ids after a symbolic gap of 0..25 blocks; reference model: live-ballot reading (DESIGN.md C17); n = 2 with k = 4 is the smallest setting in which one ballot stays pending while another fires and is then voted for again; after a candidate removal fired the history goes on with the other candidate"},
+	{Prop: "C19", Unwind: 64, Pkg: "neofs", Func: "VerifC17Ballots", Link: []string{"neofs", "processing"},
+		Quick:    [][]int{{1, 2, 4}},
+		Thorough: [][]int{{1, 2, 4}, {1, 3, 4}, {1, 4, 5}},
+		Bound:    "the ballot harness of C17 for the cheque method (param 0 = 1): n stored Alphabet keys (param 1), k invocations (param 2) for one of two cheque ids; after every invocation the GAS balances of the payee and of the contract equal 7 GAS per cheque the model says was approved: a cheque is paid exactly once"},
 	{Prop: "C14", Pkg: "container", Func: "VerifC14Roster", Link: []string{"nns", "netmap", "balance", "neofsid", "container"},
 		Quick: [][]int{{2, 1, 1}, {0, 0, 1}, {1, 0, 2}}, Thorough: [][]int{{2, 1, 1}, {0, 0, 1}, {1, 0, 2}, {3, 2, 3}, {1, 3, 0}},
 		Bound: "batches of symbolic 33-byte keys of sizes (param0,param1) for vector 0 and param2 for vector 1, commit with symbolic REPs 0..255, second round with one batch, empty commit"},
